@@ -102,6 +102,8 @@ impl Report {
         *c += 1;
         // keep the first few per signature, bounded overall
         if *c <= 3 && self.violations.len() < MAX_VIOLATIONS_KEPT {
+            let cx = crate::ctx::last_context();
+            let witness = if cx.is_empty() { witness } else { format!("{}  [{}]", witness, cx) };
             self.violations.push(Violation { sig: sig.to_string(), detail, witness });
         }
     }
